@@ -46,6 +46,10 @@ impl PathSyntax for BearingPathSyntax {
         self.data.get(self.index).copied()
     }
 
+    fn peek(&self, offset: usize) -> Option<char> {
+        self.data.get(self.index + offset).copied()
+    }
+
     fn advance(&mut self) {
         self.index += 1;
     }
